@@ -81,6 +81,7 @@ def gen_cases(tier, seed):
         cases.append({"shells": shells, "points": pts, "nuc": nuc, "Z": Z, "dm": dm, "transform": T, "thresholds": thr,
                       "classes": classes + sorted(pcl) + [tcls, dcls, "nnuc:%d" % nnuc] + (["Z:negative"] if min(Z) < 0 else []) + (["Z:big"] if max(abs(z) for z in Z) > 5 else []),
                       "cost": len(pts) * sum((3 + a + b) ** 3 * len(x["e"]) * len(y["e"]) for x, a in zip(shells, ls) for y, b in zip(shells, ls))})
+    cases += bases.argrep_variants("C14", seed, tier, cases, 6, ok=lambda c: "shells" in c and c.get("kind") in (None, "whole", "kernel", "perm", "real"))  # constructor arguments in other in-memory representations
     return cases
 
 
